@@ -21,7 +21,8 @@ LEVEL_NOTE = ("modelled handlers (every handler of pkg/rest/routes.go and pkg/we
               "(from their source) and validated by the correspondence run, not verified; the mailbox naming function "
               "(MailboxForAddress, property C04) is an arbitrary function in the theorems and is observed from the implementation "
               "in the correspondence run; enmime body/attachment extraction is trusted (message contents are generated per tag and each field is "
-              "read back separately)")
+              "read back separately)"
+              " Composed over ONE abstract store with the other interfaces' models (Proofs/InterfacesRemoval.v, InterfacesRemovalPop3.v, InterfacesSeen.v): removed_message_is_gone_from_every_interface / purged_mailbox_is_empty_in_every_interface (after REST DELETE the store, REST /source, web-UI /source and a second DELETE answer not-there, the listing and the POP3 view lose exactly that message, everything else is untouched), pop3_quit_deletions_reach_every_interface (what a POP3 QUIT commits is gone from the store and REST, what the session did not mark stays), seen_changes_only_the_flag (PATCH seen changes one flag; POP3 view and sources unchanged); removal_premises_hold / quit_instance are kernel-evaluated instances.")
 TECHNIQUE = "machine-checked proof in Coq + model/code correspondence check"
 DESIGN_REF = "DESIGN.md §4 C14"
 RULE = ("hist: a random history (4-33 ops) of deliveries, raw HTTP requests (7 path templates, names escaped in 4 valid ways, "
